@@ -125,3 +125,119 @@ Theorem C16_no_flags_sound : forall l dup,
   flags_sound (mkPopData (map (fun v => mkPayload v false) l) dup false).
 Proof. exact no_flags_sound. Qed.
 Print Assumptions C16_no_flags_sound.
+
+(** ------------------------------------------------------------------------------------------------------------
+    the worker queue under CONCURRENT access (Conc/RingSteps.v): every push/pop of tp::MPMCBoundedQueue is broken
+    into its atomic steps (load position, load cell sequence, compare, CAS on the counter - strong or spuriously
+    failing -, data write / data move, sequence store, with the "full"/"empty" exits and both retry loops), any
+    number of threads run any programs of pushes and pops, and a schedule is an arbitrary list of
+    (thread id, spurious-CAS-failure flag).  Shared memory is the very [ring] record of the sequential theorem above.
+    Assumed, not proved: sequentially consistent atomics (the relaxed/acquire/release orders of the code are outside
+    the model) and unbounded counters (size_t wrap needs the power-of-two capacity the constructor enforces).
+    [rs_lin] is a ghost log appended at each successful CAS, [rs_q] the ghost abstract queue. *)
+From VB Require Import Conc.RingSteps Conc.RingConc Conc.RingExamples.
+
+(** for EVERY schedule the successful operations are linearizable, linearization point = the successful CAS:
+    the log is a legal history of the bounded FIFO [fifo_step] of the sequential theorem (each logged push accepted
+    below capacity, each logged pop returning the oldest element: global FIFO order), it ends in the abstract
+    queue, and restricted to any thread it is exactly the successful answers that thread returned, in program
+    order, plus the call it has linearized and not yet returned from *)
+Theorem C16_ring_linearizable : forall (A : Type) (size : nat) (progs : nat -> list (rop A)) (sched : list (nat * bool)),
+  2 <= size ->
+  let s := rs_run sched (rs_init size progs) in
+  fifo_run A size (map lev_op (rs_lin s)) [] = map lev_res (rs_lin s) /\
+  Forall (fun e => is_ok (lev_res e) = true) (rs_lin s) /\
+  fifo_state size (map lev_op (rs_lin s)) [] = rs_q s /\
+  (forall t, proj t (rs_lin s) = succ_of (thist (rs_thr s t)) ++ pending (tpc (rs_thr s t))).
+Proof. exact ring_linearizable_lemma. Qed.
+Print Assumptions C16_ring_linearizable.
+
+(** the log respects real time: between any two moments s1, s2 of an execution the log and every thread's list of
+    returned answers only grow, and thread t's part of the growth consists of the calls of t that returned or were
+    linearized after s1 - a call that has returned by s1 precedes everything linearized later *)
+Theorem C16_ring_real_time_order : forall (A : Type) (size : nat) (progs : nat -> list (rop A)) sched1 sched2,
+  2 <= size ->
+  let s1 := rs_run sched1 (rs_init size progs) in
+  let s2 := rs_run sched2 s1 in
+  exists ext, rs_lin s2 = rs_lin s1 ++ ext /\
+    forall t, exists hext, thist (rs_thr s2 t) = thist (rs_thr s1 t) ++ hext /\
+      pending (tpc (rs_thr s1 t)) ++ proj t ext = succ_of hext ++ pending (tpc (rs_thr s2 t)).
+Proof. exact ring_real_time_lemma. Qed.
+Print Assumptions C16_ring_real_time_order.
+
+(** no task lost, none duplicated, capacity respected, at every point of every schedule: the pushed values in
+    linearization order are the popped values followed by the queue contents (equal as lists, hence as multisets:
+    every popped value was pushed, each pushed value is popped at most once, popped ++ contents = pushed) *)
+Theorem C16_ring_no_loss_no_dup : forall (A : Type) (size : nat) (progs : nat -> list (rop A)) (sched : list (nat * bool)),
+  2 <= size ->
+  let s := rs_run sched (rs_init size progs) in
+  map Some (pushed_vals (rs_lin s)) = popped_vals (rs_lin s) ++ map Some (rs_q s) /\
+  length (rs_q s) <= size /\
+  length (rs_q s) = enq A (rs_mem s) - deq A (rs_mem s) /\
+  deq A (rs_mem s) <= enq A (rs_mem s) <= deq A (rs_mem s) + size.
+Proof. exact ring_conservation_lemma. Qed.
+Print Assumptions C16_ring_no_loss_no_dup.
+
+(** a push that answers "full" (its history gains PushFull at its next own step after the sequence load, whatever
+    the other threads do in between): when it loaded the sequence number the enqueue counter was still the position
+    it had read, and the abstract queue held [size] elements or the cell was still owned by a pop between its CAS
+    and its sequence store.  The second case is real (C16_ring_full_with_inflight_pop_example). *)
+Theorem C16_ring_full_answer_justified : forall (A : Type) (size : nat) (progs : nat -> list (rop A)) sched t x pos b mid b',
+  2 <= size ->
+  let s := rs_run sched (rs_init size progs) in
+  tpc (rs_thr s t) = PushLoadSeq x pos ->
+  Forall (fun e => fst e <> t) mid ->
+  let s' := rs_step t b' (rs_run mid (rs_step t b s)) in
+  thist (rs_thr s' t) = thist (rs_thr s t) ++ [(RPush A x, PushFull A)] ->
+  enq A (rs_mem s) = pos /\
+  (length (rs_q s) = size \/ (size <= pos /\ exists t', ipop (tpc (rs_thr s t')) = Some (pos - size))).
+Proof. exact ring_full_justified_lemma. Qed.
+Print Assumptions C16_ring_full_answer_justified.
+
+(** a pop that answers "empty": when it loaded the sequence number the dequeue counter was still the position it
+    had read, and the abstract queue was empty or its oldest element belonged to a push between its CAS and its
+    sequence store.  The second case is real and makes "empty" non-linearizable in the strict sense
+    (C16_ring_empty_with_inflight_push_example); callers must treat it as "retry later", which Worker::threadFunc does. *)
+Theorem C16_ring_empty_answer_justified : forall (A : Type) (size : nat) (progs : nat -> list (rop A)) sched t pos b mid b',
+  2 <= size ->
+  let s := rs_run sched (rs_init size progs) in
+  tpc (rs_thr s t) = PopLoadSeq pos ->
+  Forall (fun e => fst e <> t) mid ->
+  let s' := rs_step t b' (rs_run mid (rs_step t b s)) in
+  thist (rs_thr s' t) = thist (rs_thr s t) ++ [(RPop A, PopEmpty A)] ->
+  deq A (rs_mem s) = pos /\
+  (rs_q s = [] \/ exists t', ipush (tpc (rs_thr s t')) = Some pos).
+Proof. exact ring_empty_justified_lemma. Qed.
+Print Assumptions C16_ring_empty_answer_justified.
+
+(** the model has the interleavings in question: two producers read the same position and sequence number, both
+    reach the CAS, one wins, the other's CAS fails, reloads the sequence of the next cell and retries *)
+Theorem C16_ring_cas_collision_example :
+  view (rs_run ex_collide (rs_init 2 ex_progs)) =
+  ([(0, None); (1, None)], 1, 0,
+   [(PushWrite 10 0, []); (PushLoadSeq 20 1, []); (PcIdle, []); (PcIdle, [])],
+   [(0, RPush nat 10, PushOk nat)], [10]).
+Proof. exact ring_cas_collision_example. Qed.
+Print Assumptions C16_ring_cas_collision_example.
+
+Theorem C16_ring_empty_with_inflight_push_example :
+  view (rs_run (ex_collide ++ plain [1; 1; 1; 1; 1]) (rs_init 2 ex_progs)) =
+    ([(0, None); (2, Some 20)], 2, 0,
+     [(PushWrite 10 0, []); (PcIdle, [(RPush nat 20, PushOk nat)]); (PcIdle, []); (PcIdle, [])],
+     [(0, RPush nat 10, PushOk nat); (1, RPush nat 20, PushOk nat)], [10; 20]) /\
+  view (rs_run (ex_collide ++ plain [1; 1; 1; 1; 1] ++ plain [2; 2; 2; 2]) (rs_init 2 ex_progs)) =
+    ([(0, None); (2, Some 20)], 2, 0,
+     [(PushWrite 10 0, []); (PcIdle, [(RPush nat 20, PushOk nat)]); (PcIdle, [(RPop nat, PopEmpty nat)]); (PcIdle, [])],
+     [(0, RPush nat 10, PushOk nat); (1, RPush nat 20, PushOk nat)], [10; 20]).
+Proof. exact ring_empty_with_inflight_push_example. Qed.
+Print Assumptions C16_ring_empty_with_inflight_push_example.
+
+Theorem C16_ring_full_with_inflight_pop_example :
+  view (rs_run (plain [0; 0; 0; 0; 0; 0; 0; 0; 0; 0; 0; 0; 0; 0] ++ plain [2; 2; 2; 2; 2] ++ plain [3; 3; 3; 3])
+               (rs_init 2 ex_progs2)) =
+  ([(1, Some 10); (2, Some 20)], 2, 1,
+   [(PcIdle, [(RPush nat 10, PushOk nat); (RPush nat 20, PushOk nat)]); (PcIdle, []); (PopMove 0 (Some 10), []);
+    (PcIdle, [(RPush nat 30, PushFull nat)])],
+   [(0, RPush nat 10, PushOk nat); (0, RPush nat 20, PushOk nat); (2, RPop nat, PopOk nat (Some 10))], [20]).
+Proof. exact ring_full_with_inflight_pop_example. Qed.
+Print Assumptions C16_ring_full_with_inflight_pop_example.
